@@ -811,9 +811,10 @@ func buildTS(r *rng, c ttCase, o ttTSOpts) []byte {
 // ---------------------------------------------------------------- the demultiplexer's view (contract)
 
 // demuxRecord replays the calls ReadFromTeletext makes on the demultiplexer and prints what it delivered:
-//   M n pid:tag,tag.. ...   PMT (elementary streams with their descriptor tags)
-//   P pid streamid pts|- pcr|- x<payload>     PES
-//   O other data, Z a nil data without error, E end of stream, X another error, R rewind (RX: rewind failed)
+//
+//	M n pid:tag,tag.. ...   PMT (elementary streams with their descriptor tags)
+//	P pid streamid pts|- pcr|- x<payload>     PES
+//	O other data, Z a nil data without error, E end of stream, X another error, R rewind (RX: rewind failed)
 func demuxRecord(ts []byte, pidOpt int) string {
 	var o []string
 	dmx := astits.NewDemuxer(context.Background(), bytes.NewReader(ts))
@@ -1001,4 +1002,24 @@ func init() {
 			c.count("noteletext")
 		}
 	}}
+}
+
+// teletext reading as an independent operation of the concurrency batches (C20) and of the
+// schedule / fault streams (C17, C18)
+func ttSampleTS(seed uint64) (ts []byte, page, pid int) {
+	r := newRng(seed, "tt-sample")
+	tc := genTTCase(r, int(seed%3))
+	o := ttTSOpts{pid: uint16(0x100 + r.intn(0xe00)), video: r.bool(), period: 5}
+	return buildTS(r, tc, o), tc.pageOpt(), 0
+}
+
+func init() {
+	extraConcOps = append(extraConcOps, func(seed uint64) string {
+		ts, page, pid := ttSampleTS(seed % 40)
+		s, err := astisub.ReadFromTeletext(bytes.NewReader(ts), astisub.TeletextOptions{Page: page, PID: pid})
+		if err != nil {
+			return "ts:err"
+		}
+		return "ts:" + canonSubs(s)
+	})
 }
